@@ -90,3 +90,27 @@ def decorate(rnd, text):
         out.append(ch)
         if rnd.random() < 0.3: out.append(' ' * rnd.randint(1, 2))
     return (' ' if rnd.random() < 0.3 else '') + ''.join(out)
+
+def scope_family(depth=2):
+    """ASTs built WITHOUT regard to scoping (free, vacuous, re-bound and sibling-bound variables all occur): every tree of the
+    given depth over 8 leaves, negation, three quantifier prefixes and conjunction, plus one more unary layer.  Rendered, they
+    are inputs on which accept/reject is decided by the binding discipline alone."""
+    x, y, m = ('var', 0, 0), ('var', 1, 0), ('const', 0, 0)
+    F, G = (0, 0, 1), (1, 0, 2)
+    leaves = [('atom', 0, 0), ('pred', F, (x,)), ('pred', F, (y,)), ('pred', F, (m,)), ('pred', G, (x, y)), ('pred', G, (x, m)),
+              ('pred', (-1, 0, 2), (x, x)), ('pred', (-1, 0, 2), (y, m))]
+    def unary(t):
+        return [('op', 'Negation', (t,)), ('quant', 'Universal', x, t), ('quant', 'Universal', y, t), ('quant', 'Existential', x, t)]
+    level = list(leaves)
+    for _ in range(depth):
+        nxt = list(leaves)
+        for t in level: nxt += unary(t)
+        for a in level:
+            for b in level: nxt.append(('op', 'Conjunction', (a, b)))
+        level = nxt
+    seen = set()
+    for t in level:
+        if t not in seen: seen.add(t); yield t
+    for t in level:
+        for u in unary(t):
+            if u not in seen: seen.add(u); yield u
